@@ -29,7 +29,7 @@ func (p *Prop) Meta() simkit.Meta {
 		Stub: []string{"stream source", "router", "reducer (merge tree)"},
 		Assumptions: []string{
 			"values are finite with |x| in [1e-6,1e12] or 0, so that squares neither overflow nor underflow (the statement speaks of large offsets, not of overflow)",
-			"self-merge s.Combine(s) and struct copies of a StreamStats are not generated (the statement speaks of 'any two StreamStats')",
+			"struct copies of a StreamStats used as checkpoints are not generated; self-merge s.Combine(s) IS generated (rarely), with the documented meaning 'as if all samples added to o were added to s', i.e. every value counted twice - the pinned code computes exactly that",
 			"tolerances are derived from the data: |Total-ref| <= 8(n+4)eps*sum|x|, mean 8(n+4)eps*max|x|, variance abs error <= 8(n+4)^1.5*eps*sigma*sqrt(sigma^2+mean-square); observed/allowed is reported as max_error_over_bound",
 			"an empty accumulator is only required to report Count==0 and Total==0 and to behave as empty in every later event",
 		},
@@ -280,6 +280,26 @@ func (c *ctx) combine(i, j int) bool {
 	return true
 }
 
+// selfCombine is s.Combine(s): "as if all samples added to o were added to s"
+// with o and s the same accumulator - every value counted twice.
+func (c *ctx) selfCombine(i int) {
+	if 2*c.model[i].N > maxCount {
+		return
+	}
+	c.logf("Combine(acc%d[%s] <- acc%d itself)", i, c.flag(i), i)
+	c.hash.Str("C" + c.flag(i) + "self")
+	c.hash.Word(uint64(i))
+	c.probe("combine_self")
+	c.nComb++
+	if !c.op("Combine", "self", func() { c.accs[i].Combine(c.accs[i]) }) {
+		return
+	}
+	c.model[i].Merge(c.model[i].Clone())
+	c.bags[i] = append(c.bags[i], c.bags[i]...)
+	c.depth[i]++
+	c.check(i, "Combine", "self")
+}
+
 func (c *ctx) reset(i int) {
 	c.logf("Reset(acc%d)", i)
 	c.hash.Str("R")
@@ -349,6 +369,10 @@ func (p *Prop) Run(t *simhook.Tape, opt simkit.RunOpt) *simkit.RunResult {
 			}
 			if g.Chance(1, 40) {
 				c.reset(g.Intn(nacc))
+				continue
+			}
+			if g.Chance(1, 60) {
+				c.selfCombine(g.Intn(nacc))
 				continue
 			}
 			if len(fed) == 0 {
